@@ -9,6 +9,8 @@ CONSTANTS
   HandlerSeqs <- C_HSeqs
   UpProgs <- C_UpProgs
   CRProg <- C_CR
+  Forms = {"fresh"}
+  Colls = {}
   QuitOn = FALSE
   QuitDeferred = FALSE
   DefCap = 0
@@ -25,4 +27,5 @@ PROPERTY FiredForever
 PROPERTY NeverEarly
 PROPERTY LifeLogged
 PROPERTY CROnce
+PROPERTY DepsFixed
 CHECK_DEADLOCK FALSE
